@@ -5,7 +5,7 @@
      bit 1: the model (Model.RefOrder.pipeline with the TextQueryTestBackend rendering) predicts all of it
      bit 2: the specification oracle (Spec.RefOrder), evaluated on the source documents and the
             implementation's output only
-     bit 4: premises of the theorems (unique names/ids and titles, acyclic references)
+     bit 4: premise of the theorems (unique names/ids; unique titles so that rules can be told apart by title)
    suite oldsort : ties the model of the ORIGINAL ordering step (pysort with "is referenced by") to
      CPython's sorted() with the real SigmaRuleBase.__lt__ (documentation of defect D22). *)
 From Coq Require Import NArith List Bool Arith.
@@ -98,7 +98,7 @@ Definition judge_orders (c : list doc * list str * list (list nat * ires)) : N :
   let first := match runs with r :: _ => snd r | [] => ILoadErr 0 end in
   bits (wf && forallb (agree_run ds tab) runs)
        (wf && forallb (spec_run ds first) runs)
-       (unique_keysb ds && unique_titlesb ds && acyclicb ds)
+       (unique_keysb ds && unique_titlesb ds)
        (existsb is_corr ds && (1 <? length ds) && (1 <? length runs)).
 
 (* ---- suite oldsort: (number of rules, resolved references per rule, order returned by
